@@ -728,6 +728,7 @@ pub(crate) fn add_model<P: ProtoModel>(
     executor: &Executor,
     abort_signal: &Signal,
     model_names: &mut Vec<String>,
+    observers: &mut Vec<(String, Box<dyn ChannelObserver>)>,
 ) {
     #[cfg(feature = "tracing")]
     let span = tracing::span!(target: env!("CARGO_PKG_NAME"), tracing::Level::INFO, "model", name);
@@ -739,6 +740,7 @@ pub(crate) fn add_model<P: ProtoModel>(
         executor,
         abort_signal,
         model_names,
+        observers,
     );
     let model = model.build(&mut build_cx);
 
